@@ -407,6 +407,37 @@ class Interp:
         if isinstance(fn, functools.partial):
             return self.call(fn.func, (*fn.args, *args),
                              {**fn.keywords, **kwargs})
+        # repository classes whose __init__ is written in the repository:
+        # allocate natively, interpret __init__ (so that what the
+        # constructor does -- e.g. creating name generators -- is seen)
+        if isinstance(fn, type) and (fn.__module__ or "").startswith(
+                self.repo_prefixes) and fn.__new__ is object.__new__ \
+                and type(fn).__call__ is type.__call__:
+            init = inspect.getattr_static(fn, "__init__", None)
+            if isinstance(init, types.FunctionType) and \
+                    self.is_repo_function(init) and \
+                    init not in self.native_only:
+                obj = object.__new__(fn)
+                if init in self.contracts:
+                    self._log("contract", _qn(init))
+                    self.contracts[init](self, init, (obj, *args), kwargs)
+                else:
+                    self.call_repo_function(init, (obj, *args), kwargs)
+                return obj
+        # callable instances whose __call__ is a modelled library function
+        if not isinstance(fn, (type, types.BuiltinFunctionType)):
+            try:
+                cf0 = inspect.getattr_static(type(fn), "__call__")
+            except AttributeError:
+                cf0 = None
+            if cf0 is not None:
+                try:
+                    hh = self.intercepts.get(cf0)
+                except TypeError:
+                    hh = None
+                if hh is not None:
+                    self._log("intercept", _qn(cf0))
+                    return hh(self, (fn, *args), kwargs)
         # instances of repository classes with a __call__ written in the repo
         tp = type(fn)
         if not isinstance(fn, type) and (tp.__module__ or "").startswith(
